@@ -56,5 +56,45 @@ pub fn check(a: &Analysis, _aux: &mut Aux, t: &mut Tally) -> Vec<Violation> {
         }
         prev = s.tcb_len;
     }
+    // "so memory use is independent of the volume of unvalidated traffic": over a long stretch of
+    // one epoch in which no flow is validated, the resident memory of the node process (sampled
+    // every 2048th frame) stays where it was. The first 16 384 frames of a run are warm-up (code
+    // pages, allocator pools); the allowance is generous (2 MiB over at least 100 000 frames; the unchanged responder shows 0 KiB), so
+    // that only growth in proportion to the traffic is reported.
+    let mut first: Option<(usize, u64, usize, u32)> = None; // (position, rss, table size, epoch)
+    for (k, s) in a.steps.iter().enumerate() {
+        let rss = match s.rss_kb {
+            Some(r) => r,
+            None => continue,
+        };
+        if k < 16_384 {
+            continue;
+        }
+        match first {
+            Some((_, _, tl, ep)) if tl == s.tcb_len && ep == s.epoch => {}
+            _ => {
+                first = Some((k, rss, s.tcb_len, s.epoch));
+                continue;
+            }
+        }
+        let (k0, r0, _, _) = first.unwrap();
+        if k - k0 >= 100_000 {
+            t.probe("memory-window-100k-unvalidated-frames");
+            let allow: u64 = std::env::var("VERIF_MEM_ALLOW_KB").ok().and_then(|s| s.parse().ok()).unwrap_or(2048);
+            if rss > r0 + allow {
+                v.push(Violation {
+                    prop: "C09",
+                    rule: "memory-growth".into(),
+                    key: "memory-grows-with-unvalidated-traffic".into(),
+                    step: s.idx,
+                    detail: format!(
+                        "resident memory of the responder grew from {} KiB to {} KiB over {} frames that validated no flow (connection table constant at {} entries)",
+                        r0, rss, k - k0, s.tcb_len
+                    ),
+                });
+                break;
+            }
+        }
+    }
     v
 }
